@@ -95,6 +95,9 @@ func (m *TapeManager) openOrReuseReader() error {
 	m.readerLock.Lock()
 	defer m.readerLock.Unlock()
 
+	// A reader that is still open belongs to the operation that currently holds the drive; wait for the drive instead of sharing (and later closing) that reader
+	m.physicalLock.Lock()
+
 	reopen := false
 	if m.reader == nil {
 		reopen = true
@@ -104,8 +107,6 @@ func (m *TapeManager) openOrReuseReader() error {
 	}
 
 	if reopen {
-		m.physicalLock.Lock()
-
 		r, rr, err := OpenTapeReadOnly(m.drive)
 		if err != nil {
 			m.physicalLock.Unlock()
